@@ -147,6 +147,10 @@ class Enumerator(object):
         saved_ty = self.ev.tyenv
         self.ev.mutated = dict(saved_mut)
         self.ev.mutated.update(self.ev.mutated_locals(npath, target))
+        saved_tr = self.ev.tracked
+        self.ev.tracked = set(saved_tr) | self.ev.trackable_locals(target, True)
+        for lid in self.ev.tracked:
+            self.ev.mutated.pop(lid, None)
         gens = target.get('generics', [])
         gargs = tuple(node.get('gargs', [])) if node.get('k') == 'MethodCall' else tuple((node.get('f') or {}).get('gargs', []))
         gargs = tuple(self.ev.tyenv.get(g, g) for g in gargs)
@@ -163,6 +167,7 @@ class Enumerator(object):
         finally:
             self.stack.pop()
             self.ev.mutated = saved_mut
+            self.ev.tracked = saved_tr
             self.ev.tyenv = saved_ty
         for p in outs:
             if p.done == 'return':
@@ -457,6 +462,11 @@ class Enumerator(object):
                 if p.done:
                     out.append(p)
                     continue
+                if node['l'].get('k') == 'Local' and node['l']['id'] in getattr(self.ev, 'tracked', ()):
+                    p.env[node['l']['id']] = p.value  # a local followed exactly: its new value, no effect
+                    p.value = ('unit',)
+                    out.append(p)
+                    continue
                 l = self.ev.eval(node['l'], p.env, [], None, [])
                 if S.show(l) != S.show(p.value):  # `x = x` (a helper handing the old value back) changes nothing
                     p.effects.append('%s = %s' % (S.show(l), S.show(p.value)))
@@ -626,6 +636,9 @@ def table(ctx, fnpath, param_names=None):
     fn = ctx.fn(fnpath)
     en = Enumerator(ctx)
     en.ev.mutated = dict(en.ev.mutated_locals(fnpath, fn))
+    en.ev.tracked = en.ev.trackable_locals(fn, True)
+    for lid in en.ev.tracked:
+        en.ev.mutated.pop(lid, None)
     for i, prm in enumerate(fn.get('params', [])):
         if prm.get('k') == 'Bind' and param_names and i < len(param_names):
             en.ev.mutated.pop(prm['id'], None)
